@@ -63,7 +63,8 @@ class PolarizedRays(RealRays):
         if state.is_polarized:
             E0 = self._get_3d_electric_field(state)
             E1 = self.get_output_field(E0)
-            self.i = np.sum(np.abs(E1)**2, axis=1)
+            # scale by initial ray intensity, as the unpolarized branch does
+            self.i = np.sum(np.abs(E1)**2, axis=1) * self._i0
         else:
             # Local x-axis field
             state_x = PolarizationState(is_polarized=True, Ex=1.0, Ey=0.0,
